@@ -262,7 +262,19 @@ def make_virtual_select (clock, real_select=None, stats=None):
       try:
         a, b, c = real_select(real_r, real_w, [], 0)
       except (OSError, ValueError):
-        a, b, c = [], [], []
+        # one stale descriptor (a pinger whose owner is gone) must not hide
+        # the readiness of the others: poll them one by one
+        a, b = [], []
+        for x in real_r:
+          try:
+            if real_select([x], [], [], 0)[0]: a.append(x)
+          except (OSError, ValueError):
+            if stats is not None: stats["bad_fds"] = stats.get("bad_fds", 0) + 1
+        for x in real_w:
+          try:
+            if real_select([], [x], [], 0)[1]: b.append(x)
+          except (OSError, ValueError):
+            pass
       ro += a; wo += b
     if not ro and not wo and not xo:
       if stats is not None: stats["timeouts"] = stats.get("timeouts", 0) + 1
@@ -410,7 +422,8 @@ class World (object):
     self.hub._pinger.ping()
     self.hub.idle()
     if self.clock.now != t0:
-      raise AdapterError("virtual time moved inside a zero-time idle")
+      raise AdapterError("virtual time moved inside a zero-time idle "
+                         "(stats %r)" % (self.stats,))
 
   def next_deadline (self):
     d = None
@@ -454,8 +467,14 @@ class SwitchPeer (object):
     self.sw_mod = sw
     self.world = world
     if ioloop is None:
-      ioloop = iow.RecocoIOLoop()
-      ioloop.start()
+      # one I/O loop per world, as in one switch process: a loop per switch
+      # per case is never stopped and its pinger descriptors pile up until
+      # select() cannot take them any more
+      ioloop = getattr(world, "_shared_ioloop", None)
+      if ioloop is None or not getattr(ioloop, "running", True):
+        ioloop = iow.RecocoIOLoop()
+        ioloop.start()
+        world._shared_ioloop = ioloop
     self.ioloop = ioloop
     if expire:
       cls = type("ExpiringSwitch", (sw.ExpireMixin, sw.SoftwareSwitch), {})
